@@ -113,6 +113,8 @@ theorem frame_giveBack (s : St) (vs) : Frame s (s.giveBack vs) := by unfold St.g
 theorem frame_lose (s : St) (vs) : Frame s (s.lose vs) := by unfold St.lose; frame
 theorem frame_mbFlush (fl) (s : St) : Frame s (mbFlush fl s) := by
   unfold mbFlush; split <;> frame
+theorem frame_mbFlushMid (fl) (s : St) : Frame s (mbFlushMid fl s) := by
+  unfold mbFlushMid; split <;> frame
 theorem frame_mbGot (fl) (s : St) (k f) : Frame s (mbGot fl s k f) := by
   unfold mbGot; split <;> frame
 
